@@ -114,6 +114,11 @@ const _: () = {
             (bytes.first() == Some(&b'/')).then_some(())
                 .ok_or_else(crate::Response::NotImplemented)?;
 
+            // `str`, `params` and path-param extraction `expect` that the
+            // percent-decoded path is UTF-8
+            percent_decode_utf8(bytes)
+                .map_err(|_| crate::Response::BadRequest())?;
+
             /*
             Strip trailing '/' **even when `bytes` is just `b"/"`**
             (then the bytes become b"" (empty bytes)).
